@@ -552,13 +552,16 @@ class CNLTransformer(Transformer):
     def string_list(self, elem):
         return [ValueComponent(string) for string in elem]
 
-    @v_args(inline=True)
-    def parameter_entity_link(self, attribute: AttributeComponent, entity: EntityComponent):
+    @v_args(meta=True, inline=True)
+    def parameter_entity_link(self, meta, attribute: AttributeComponent, entity: EntityComponent):
         if attribute.value == Utility.NULL_VALUE:
             attribute.value = self._new_field_value('_'.join([entity.get_name(), str(attribute.get_name())]))
-        entity.set_attributes_value([attribute])
-        self._proposition.add_requisite(entity)
-        return entity.get_attributes_by_name_and_origin(attribute.get_name(), attribute.origin)[0]
+        try:
+            entity.set_attributes_value([attribute])
+            self._proposition.add_requisite(entity)
+            return entity.get_attributes_by_name_and_origin(attribute.get_name(), attribute.origin)[0]
+        except AttributeNotFound as e:
+            raise CompilationError(str(e), meta.line)
 
     def comparison_operand(self, elem):
         return elem[0]
